@@ -4,6 +4,7 @@ import Frp.Lemmas.ConfStr
 import Frp.Lemmas.ConfNum
 import Frp.Model.Flags
 import Frp.Lemmas.TypedConf
+import Frp.Lemmas.StrictLoad
 /-
   C18 — A proxy definition means the same in every format and on both ends.
 
@@ -961,6 +962,52 @@ theorem proxy_complete_get (user : Str) (c : Rec Str) (k : Str) :
     by_cases h3 : k = [84, 114, 97, 110, 115, 112, 111, 114, 116, 46, 66, 97, 110, 100, 119, 105, 100, 116, 104, 76, 105, 109, 105, 116, 77, 111, 100, 101] <;>
     simp_all [Rec.get_set]
 
+/-- **Complete is a fixpoint on its own result (proxies).**  Applying `Complete("")` to a completed proxy
+    definition — any type, any user — changes no field: a consumer that "completes" a loaded configuration
+    again (or re-derives defaults from it) must find it exactly as the loader left it -/
+theorem proxy_complete_idem (user : Str) (c : Rec Str) (k : Str) :
+    (proxyComplete [] (proxyComplete user c)).get k = (proxyComplete user c).get k := by
+  rw [proxy_complete_get [] (proxyComplete user c) k]
+  have hne1 : kLocalIP ≠ kName := by decide
+  have hne2 : kBwMode ≠ kName := by decide
+  have hne3 : kBwMode ≠ kLocalIP := by decide
+  simp only [proxySpec, proxy_complete_get, if_true, hne1, hne2, hne3, if_false]
+  by_cases h1 : k = kName
+  · simp [h1]
+  · by_cases h2 : k = kLocalIP
+    · simp only [h1, h2, if_true, if_false, hne1]
+      by_cases a : asStr (c.get kLocalIP) = []
+      · simp only [a, if_true]; simp [asStr, localhostB]
+      · simp only [a, if_false]
+    · by_cases h3 : k = kBwMode
+      · simp only [h3, if_true, if_false, hne2, hne3]
+        by_cases b : asStr (c.get kBwMode) = []
+        · simp only [b, if_true]; simp [asStr, clientB]
+        · simp only [b, if_false]
+      · simp [h1, h2, h3]
+
+/-- **Complete is a fixpoint on its own result (visitors)**, for every visitor type, whenever the visitor
+    does not name another user's server (`ServerUser` empty) -/
+theorem visitor_complete_idem (t : VT) (user : Str) (c : Rec Str) (k : Str)
+    (h : asStr (c.get kServerUser) = []) :
+    (visitorComplete t [] (visitorComplete t user c)).get k = (visitorComplete t user c).get k := by
+  rw [visitor_complete_closed t [] _ k]
+  apply closedForm_idem user _ c _ k (fun k => visitor_complete_closed t user c k)
+  intro s hs f g e
+  subst e
+  have hg : g = kServerUser := by
+    cases t <;> simp [expVisitorSteps] at hs <;> exact hs.2
+  subst hg
+  refine ⟨?_, h⟩
+  cases t <;> decide
+
+/-- … and why nobody but the loader may apply it: with `ServerUser` set, a second `Complete` qualifies
+    the server name once more (`u.u.srv`) -/
+theorem visitor_complete_twice_witness :
+    (visitorComplete .stcp [] (visitorComplete .stcp [] ⟨[(kServerName, .str [115]), (kServerUser, .str [117])]⟩)).get kServerName
+      ≠ (visitorComplete .stcp [] ⟨[(kServerName, .str [115]), (kServerUser, .str [117])]⟩).get kServerName := by
+  decide +kernel
+
 /-- predicate for the driver: on every listed field the implementation's completed definition holds
     what the documented rules compute from the logical definition (`spec`), up to the stated value
     normalisation of the path -/
@@ -990,43 +1037,139 @@ theorem mem_of_contains {l : List Str} {x : Str} (h : ¬ ((!l.contains x) = true
   · exact hm
   · exact absurd (by simp [hm]) h
 
+/-- `validateProxyBaseConfigForClient` as the code has it is the first error of five independent block
+    validators, in this order: name, transport, local address, health check, plugin options -/
+theorem client_base_blocks (c : ProxyView) :
+    validateProxyBaseForClient c =
+      firstErr [validateNameBlock c, validateTransportBlock c, validateLocalBlock c, validateHealthBlock c,
+        validatePluginBlock c] := by
+  simp only [validateProxyBaseForClient, validateNameBlock, validateTransportBlock, validateLocalBlock,
+    validateHealthBlock, validatePluginBlock]
+  repeat' split
+  all_goals simp_all [firstErr]
+
+theorem firstErr_none (l : List (Option ClientErr)) : firstErr l = none ↔ ∀ x ∈ l, x = none := by
+  induction l with
+  | nil => simp [firstErr]
+  | cons x xs ih =>
+    cases x with
+    | none => simp [firstErr, ih]
+    | some e => simp [firstErr]
+
+/-- **client validation = conjunction of the block validators**: a definition is accepted exactly when
+    every block, judged on its own fields alone, is — whatever the other blocks contain (in particular
+    the health check is judged whether or not a plugin serves the proxy) -/
+theorem client_accept_iff_blocks (k : PKind) (c : ProxyView) :
+    validateProxyForClient k c = none ↔
+      validateNameBlock c = none ∧ validateTransportBlock c = none ∧ validateLocalBlock c = none ∧
+      validateHealthBlock c = none ∧ validatePluginBlock c = none ∧ validateTypeBlock k c = none := by
+  simp only [validateProxyForClient, client_base_blocks]
+  cases h : firstErr [validateNameBlock c, validateTransportBlock c, validateLocalBlock c, validateHealthBlock c,
+      validatePluginBlock c] with
+  | none =>
+    have := (firstErr_none _).mp h
+    simp only [List.mem_cons, List.not_mem_nil, or_false, forall_eq_or_imp, forall_eq] at this
+    obtain ⟨h1, h2, h3, h4, h5⟩ := this
+    simp [h1, h2, h3, h4, h5]
+  | some e =>
+    have hn : ¬ (∀ x ∈ [validateNameBlock c, validateTransportBlock c, validateLocalBlock c, validateHealthBlock c,
+        validatePluginBlock c], x = none) := by
+      intro hh; rw [(firstErr_none _).mpr hh] at h; cases h
+    simp only [List.mem_cons, List.not_mem_nil, or_false, forall_eq_or_imp, forall_eq] at hn
+    constructor
+    · intro hh; cases hh
+    · intro ⟨h1, h2, h3, h4, h5, _⟩; exact absurd ⟨h1, h2, h3, h4, h5⟩ hn
+
+/-- each block validator reads its own fields only: two definitions that agree on a block's fields get the
+    same verdict from that block, whatever their other blocks are -/
+theorem client_blocks_indep (c d : ProxyView) :
+    (c.name = d.name → validateNameBlock c = validateNameBlock d) ∧
+    (c.proxyProtocolVersion = d.proxyProtocolVersion → c.bandwidthLimitMode = d.bandwidthLimitMode →
+      validateTransportBlock c = validateTransportBlock d) ∧
+    (c.pluginType = d.pluginType → c.localPort = d.localPort → validateLocalBlock c = validateLocalBlock d) ∧
+    (c.healthCheckType = d.healthCheckType → c.healthCheckPath = d.healthCheckPath →
+      validateHealthBlock c = validateHealthBlock d) ∧
+    (c.pluginType = d.pluginType → c.pluginLocalAddr = d.pluginLocalAddr → c.pluginLocalPath = d.pluginLocalPath →
+      c.pluginUnixPath = d.pluginUnixPath → validatePluginBlock c = validatePluginBlock d) := by
+  refine ⟨?_, ?_, ?_, ?_, ?_⟩
+  · intro h; simp only [validateNameBlock, h]
+  · intro h1 h2; simp only [validateTransportBlock, h1, h2]
+  · intro h1 h2; simp only [validateLocalBlock, h1, h2]
+  · intro h1 h2; simp only [validateHealthBlock, h1, h2]
+  · intro h1 h2 h3 h4; simp only [validatePluginBlock, pluginRequired, h1, h2, h3, h4]
+
+/-- the health-check block, spelled out -/
+theorem health_block_none (c : ProxyView) :
+    validateHealthBlock c = none ↔
+      c.healthCheckType ∈ [[], sTcp, sHttp] ∧ (c.healthCheckType = sHttp → c.healthCheckPath ≠ []) := by
+  simp only [validateHealthBlock]
+  split
+  · rename_i h
+    constructor
+    · intro hh; cases hh
+    · intro ⟨hm, _⟩; exact absurd (List.contains_iff_mem.mpr hm) (by simpa using h)
+  · rename_i h
+    have hm := mem_of_contains h
+    split
+    · rename_i h2
+      constructor
+      · intro hh; cases hh
+      · intro ⟨_, hp⟩; simp only [Bool.and_eq_true, decide_eq_true_eq] at h2; exact absurd h2.2 (hp h2.1)
+    · rename_i h2
+      constructor
+      · intro _; refine ⟨hm, ?_⟩; intro ht hp; simp [ht, hp] at h2
+      · intro _; rfl
+
+/-- the plugin block, spelled out: a plugin that needs a target has one -/
+theorem plugin_block_none (c : ProxyView) :
+    validatePluginBlock c = none ↔ (c.pluginType ≠ [] → pluginRequired c ≠ some []) := by
+  simp only [validatePluginBlock]
+  split
+  · rename_i h
+    cases hr : pluginRequired c with
+    | none => simp
+    | some v =>
+      cases v with
+      | nil => simp [h]
+      | cons x xs => simp
+  · rename_i h; simp [h]
+
 /-- a proxy definition accepted by `ValidateProxyConfigurerForClient` has a name, an allowed proxy
-    protocol version, bandwidth mode and health check type (with a path for http), a local port in range
-    unless a plugin serves it, a domain for the vhost types, and the one supported multiplexer -/
+    protocol version, bandwidth mode and health check type (with a path for http) — with or without a
+    plugin —, a local port in range unless a plugin serves it, the target option its plugin needs,
+    a domain for the vhost types, and the one supported multiplexer -/
 theorem client_accept (k : PKind) (c : ProxyView) (h : validateProxyForClient k c = none) :
     c.name ≠ [] ∧ c.proxyProtocolVersion ∈ [[], sV1, sV2] ∧ c.bandwidthLimitMode ∈ [sClient, sServer] ∧
     (c.pluginType = [] → 0 ≤ c.localPort ∧ c.localPort ≤ 65535) ∧
     c.healthCheckType ∈ [[], sTcp, sHttp] ∧ (c.healthCheckType = sHttp → c.healthCheckPath ≠ []) ∧
     ((k = .http ∨ k = .https ∨ k = .tcpmux) → c.subDomain ≠ [] ∨ c.customDomains ≠ []) ∧
-    (k = .tcpmux → c.multiplexer = sHttpConnect) := by
-  have hb : validateProxyBaseForClient c = none := by
-    simp only [validateProxyForClient] at h
-    cases hb : validateProxyBaseForClient c with
-    | none => rfl
-    | some e => simp [hb] at h
-  have hbase : c.name ≠ [] ∧ c.proxyProtocolVersion ∈ [[], sV1, sV2] ∧ c.bandwidthLimitMode ∈ [sClient, sServer] ∧
-      (c.pluginType = [] → 0 ≤ c.localPort ∧ c.localPort ≤ 65535) ∧
-      c.healthCheckType ∈ [[], sTcp, sHttp] ∧ (c.healthCheckType = sHttp → c.healthCheckPath ≠ []) := by
-    simp only [validateProxyBaseForClient] at hb
-    split at hb; · cases hb
-    split at hb; · cases hb
-    split at hb; · cases hb
-    split at hb; · cases hb
-    split at hb; · cases hb
-    split at hb; · cases hb
-    rename_i h1 h2 h3 h4 h5 h6
-    refine ⟨h1, ?_, ?_, ?_, ?_, ?_⟩
-    · exact mem_of_contains h2
-    · exact mem_of_contains h3
-    · intro hp
+    (k = .tcpmux → c.multiplexer = sHttpConnect) ∧
+    (c.pluginType ≠ [] → pluginRequired c ≠ some []) := by
+  obtain ⟨b1, b2, b3, b4, b5, b6⟩ := (client_accept_iff_blocks k c).mp h
+  obtain ⟨a5, a6⟩ := (health_block_none c).mp b4
+  have a9 := (plugin_block_none c).mp b5
+  have a1 : c.name ≠ [] := by
+    simp only [validateNameBlock] at b1
+    split at b1
+    · cases b1
+    · assumption
+  have a23 : c.proxyProtocolVersion ∈ [[], sV1, sV2] ∧ c.bandwidthLimitMode ∈ [sClient, sServer] := by
+    simp only [validateTransportBlock] at b2
+    split at b2; · cases b2
+    split at b2; · cases b2
+    rename_i h2 h3
+    exact ⟨mem_of_contains h2, mem_of_contains h3⟩
+  have a4 : c.pluginType = [] → 0 ≤ c.localPort ∧ c.localPort ≤ 65535 := by
+    intro hp
+    simp only [validateLocalBlock] at b3
+    split at b3
+    · cases b3
+    · rename_i h4
       have : validatePort c.localPort = true := by
         cases hv : validatePort c.localPort with
         | true => rfl
         | false => simp [hp, hv] at h4
       exact (validatePort_iff _).mp this
-    · exact mem_of_contains h5
-    · intro ht hp; simp [ht, hp] at h6
-  obtain ⟨a1, a2, a3, a4, a5, a6⟩ := hbase
   have hdom : ∀ c : ProxyView, validateDomainForClient c = none → c.subDomain ≠ [] ∨ c.customDomains ≠ [] := by
     intro c hd
     simp only [validateDomainForClient] at hd
@@ -1036,23 +1179,22 @@ theorem client_accept (k : PKind) (c : ProxyView) (h : validateProxyForClient k 
       by_cases hs : c.subDomain = []
       · right; intro hc; simp [hs, hc] at hn
       · left; exact hs
-  refine ⟨a1, a2, a3, a4, a5, a6, ?_, ?_⟩
+  refine ⟨a1, a23.1, a23.2, a4, a5, a6, ?_, ?_, a9⟩
   · intro hk
-    simp only [validateProxyForClient, hb] at h
-    rcases hk with hk | hk | hk <;> subst hk <;> simp only at h
-    · exact hdom c h
-    · exact hdom c h
+    rcases hk with hk | hk | hk <;> subst hk <;> simp only [validateTypeBlock] at b6
+    · exact hdom c b6
+    · exact hdom c b6
     · cases hd : validateDomainForClient c with
       | none => exact hdom c hd
-      | some e => simp [hd] at h
+      | some e => simp [hd] at b6
   · intro hk; subst hk
-    simp only [validateProxyForClient, hb] at h
+    simp only [validateTypeBlock] at b6
     cases hd : validateDomainForClient c with
-    | some e => simp [hd] at h
+    | some e => simp [hd] at b6
     | none =>
-      simp only [hd] at h
-      split at h
-      · cases h
+      simp only [hd] at b6
+      split at b6
+      · cases b6
       · rename_i hm; simpa using hm
 
 /-- an accepted visitor definition has a name, a server name, a bind port, and for xtcp kcp or quic -/
@@ -1116,8 +1258,13 @@ theorem server_accept (c : ServerView) (h : validateServer c = []) :
     · cases h3
 
 /-- non-vacuity -/
-example : validateProxyForClient .tcpmux ⟨[97], [], sClient, [], 80, [], [], [97], [], sHttpConnect⟩ = none := by decide
-example : validateProxyForClient .http ⟨[97], [], sClient, [], 80, [], [], [], [], []⟩ = some .domains := by decide
+example : validateProxyForClient .tcpmux ⟨[97], [], sClient, [], 80, [], [], [97], [], sHttpConnect, [], [], []⟩ = none := by decide
+example : validateProxyForClient .http ⟨[97], [], sClient, [], 80, [], [], [], [], [], [], [], []⟩ = some .domains := by decide
+/-- a plugin does not excuse the health check (type `udp`; `http` without a path), nor a health check the plugin -/
+example : validateProxyForClient .tcp ⟨[97], [], sClient, sUnixDomainSocket, 0, [117, 100, 112], [], [], [], [], [], [], [47]⟩ = some .hctype := by decide
+example : validateProxyForClient .tcp ⟨[97], [], sClient, sUnixDomainSocket, 0, sHttp, [], [], [], [], [], [], [47]⟩ = some .hcpath := by decide
+example : validateProxyForClient .tcp ⟨[97], [], sClient, sUnixDomainSocket, 0, sTcp, [], [], [], [], [], [], []⟩ = some .plugin := by decide
+example : validateProxyForClient .tcp ⟨[97], [], sClient, sUnixDomainSocket, 70000, sTcp, [], [], [], [], [], [], [47]⟩ = none := by decide
 example : validateVisitor true [97] [98] 9000 sQuic = none := by decide
 example : validateServer ⟨[116, 111, 107, 101, 110], [], [105, 110, 102, 111], none, 0, 7000, 0, 0, 80, 443, 0⟩ = [] := by decide
 
@@ -1135,7 +1282,8 @@ def clientHoldsOn (k : PKind) (c : ProxyView) (accepted : Bool) : Bool :=
     [sClient, sServer].contains c.bandwidthLimitMode && (c.pluginType != [] || validatePort c.localPort) &&
     [[], sTcp, sHttp].contains c.healthCheckType && !(c.healthCheckType == sHttp && c.healthCheckPath == []) &&
     (!(k == .http || k == .https || k == .tcpmux) || c.subDomain != [] || c.customDomains != []) &&
-    (k != .tcpmux || c.multiplexer == sHttpConnect))
+    (k != .tcpmux || c.multiplexer == sHttpConnect) &&
+    (c.pluginType == [] || pluginRequired c != some []))
 
 def visitorHoldsOn (x : Bool) (name sname : Str) (port : Int) (proto : Str) (accepted : Bool) : Bool :=
   !accepted || (name != [] && sname != [] && port != 0 && (!x || [sKcp, sQuic].contains proto))
@@ -1151,7 +1299,7 @@ theorem model_clientHoldsOn (k : PKind) (c : ProxyView) :
   cases h : validateProxyForClient k c with
   | some e => simp [clientHoldsOn]
   | none =>
-    obtain ⟨h1, h2, h3, h4, h5, h6, h7, h8⟩ := client_accept k c h
+    obtain ⟨h1, h2, h3, h4, h5, h6, h7, h8, h9⟩ := client_accept k c h
     have e1 : (c.name != []) = true := by simpa using h1
     have e2 : [[], sV1, sV2].contains c.proxyProtocolVersion = true := List.contains_iff_mem.mpr h2
     have e3 : [sClient, sServer].contains c.bandwidthLimitMode = true := List.contains_iff_mem.mpr h3
@@ -1174,7 +1322,11 @@ theorem model_clientHoldsOn (k : PKind) (c : ProxyView) :
       by_cases hk : k = .tcpmux
       · simp [h8 hk]
       · simp [hk]
-    simp only [clientHoldsOn, e1, e2, e3, e4, e5, e6, e7, e8]; rfl
+    have e9 : (c.pluginType == [] || pluginRequired c != some []) = true := by
+      by_cases hp : c.pluginType = []
+      · simp [hp]
+      · have := h9 hp; simp [this]
+    simp only [clientHoldsOn, e1, e2, e3, e4, e5, e6, e7, e8, e9]; rfl
 
 theorem model_visitorHoldsOn (x : Bool) (name sname : Str) (port : Int) (proto : Str) :
     visitorHoldsOn x name sname port proto (validateVisitor x name sname port proto == none) = true := by
@@ -1201,6 +1353,72 @@ theorem model_serverHoldsOn (c : ServerView) : serverHoldsOn c (validateServer c
     simp [h5, h6, h7, h8, h9, h10, h11]
 
 end ValidatePart
+
+/-! ## G. strict mode is a property of each load, whatever else is loading -/
+section StrictPart
+open StrictLoad
+
+/-- regenerated fact: `LoadConfigure` takes the mutex, writes the switch, decodes the document and only then
+    releases the mutex (pkg/config/load.go as it is now) -/
+theorem load_section_held : Gen.TypedConf.loadConfigureEvents = heldEvents := by decide
+
+/-- the verdict of a load taken on its own: rejected exactly when the load is strict and an unknown key
+    sits at the top level or in any nested element -/
+theorem strict_every_level (l : Load) :
+    rejects l = true ↔ l.strict = true ∧ (l.top = true ∨ ∃ e ∈ l.nested, e = true) := by
+  simp [rejects]
+
+/-- **The verdict of a load depends only on its own document and its own strictness.**  Any number of
+    `LoadConfigure` calls (the regenerated event sequence) started with any value of the switch and
+    interleaved in any order: a load that has finished has rejected its document exactly when it would
+    have done so alone — a strict load rejects an unknown key at every nesting level, a lenient load never
+    fails because of one, whatever the strictness of the loads it overlaps with. -/
+theorem strict_verdict_own (flag0 : Bool) (loads : List Load) (sched : List Nat) (i : Nat) (t : Thread)
+    (h : (run (init Gen.TypedConf.loadConfigureEvents flag0 loads) sched).threads[i]? = some t)
+    (hd : t.rest = []) :
+    loads[i]? = some t.load ∧ t.rejected = rejects t.load := by
+  rw [load_section_held] at h
+  constructor
+  · have hl := loads_run (init heldEvents flag0 loads) sched
+    have : ((run (init heldEvents flag0 loads) sched).threads.map (·.load))[i]? = some t.load := by
+      rw [List.getElem?_map, h]; rfl
+    rw [hl] at this
+    simpa [init, List.map_map, Function.comp_def] using this
+  · have hinv := inv_run _ sched (inv_init flag0 loads) i t h
+    split at hinv
+    · rcases hinv with ⟨h1, _⟩ | ⟨_, h1, _⟩ | ⟨_, done, todo, _, h1, _⟩
+      · rw [hd] at h1; cases h1
+      · rw [hd] at h1; cases h1
+      · rw [hd] at h1
+        cases todo <;> simp at h1
+    · rcases hinv with ⟨h1, _⟩ | ⟨_, h2⟩
+      · rw [hd, program_held] at h1; cases h1
+      · exact h2
+
+/-- why the critical section matters: with the document decoded after the mutex has been released, a
+    strict load that overlaps with a lenient one accepts a document whose nested element has an unknown key
+    (thread 0 strict: lock, write, unlock; thread 1 lenient: lock, write; thread 0 decodes) -/
+theorem strict_unheld_witness :
+    ∃ t, (run (init unheldEvents false [⟨true, false, [true]⟩, ⟨false, false, []⟩]) [0, 0, 0, 1, 1, 0, 0]).threads[0]? = some t ∧
+      t.rest = [] ∧ t.load.strict = true ∧ t.load.nested.any id = true ∧ t.rejected = false := by
+  refine ⟨⟨⟨true, false, [true]⟩, [], false⟩, ?_⟩
+  decide
+
+/-- non-vacuity: the same two loads and schedule under the real event sequence — thread 1 is blocked until
+    thread 0 has finished, and both end with their own verdicts -/
+example : (run (init Gen.TypedConf.loadConfigureEvents false [⟨true, false, [true]⟩, ⟨false, false, []⟩])
+    [0, 0, 0, 1, 1, 0, 0, 1, 1, 1, 1]).threads.map (fun t => (t.rest, t.rejected)) = [([], true), ([], false)] := by
+  decide
+
+/-- predicate for the driver: the verdicts the implementation gave (true = rejected), one per load, are the
+    loads' own verdicts -/
+def strictHoldsOn (loads : List Load) (verdicts : List Bool) : Bool := verdicts == loads.map rejects
+
+theorem strictHoldsOn_sound (loads : List Load) (verdicts : List Bool) :
+    strictHoldsOn loads verdicts = true ↔ verdicts = loads.map rejects := by
+  simp [strictHoldsOn]
+
+end StrictPart
 
 end C18
 end Frp
